@@ -312,3 +312,71 @@ func orStr(a, b string) string {
 }
 
 var _ = strings.Join
+
+// ruleAcceptStoresGiven: the holder methods of the node types named store what they are given. Every store
+// of an Accept* method into a field of its receiver (or of a node it has just made) puts there its parameter
+// itself -- directly, appended to the field's list, or inside a node made here around it -- or a constant.
+// A value computed from the parameter (the child of a bracket taken in place of the bracket, a trimmed
+// name) is another tree than the one that was parsed.
+func (c *Ctx) ruleAcceptStoresGiven(rule string, nodeTypes map[string]bool) {
+	n := 0
+	for _, f := range c.AllFns {
+		if f.Pkg == nil || f.Pkg.Pkg.Path() != pBase || f.Parent() != nil || !strings.HasPrefix(f.Name(), "Accept") || len(f.Params) < 2 {
+			continue
+		}
+		if !nodeTypes[recvName(f)] {
+			continue
+		}
+		x := c.Index(f)
+		isParam := func(v ssa.Value) bool {
+			p, ok := x.Origin(v).(*ssa.Parameter)
+			return ok && p != f.Params[0]
+		}
+		fresh := func(v ssa.Value) bool {
+			al, ok := x.Origin(v).(*ssa.Alloc)
+			return ok && al.Parent() == f
+		}
+		bad, badPos := "", f.Pos()
+		stores := 0
+		eachInstr(f, func(in ssa.Instruction) {
+			st, ok := in.(*ssa.Store)
+			if !ok || bad != "" {
+				return
+			}
+			fa, ok := st.Addr.(*ssa.FieldAddr)
+			if !ok {
+				return
+			}
+			if x.Origin(fa.X) != ssa.Value(f.Params[0]) && !fresh(fa.X) {
+				return
+			}
+			stores++
+			for _, pv := range x.ValuesAt(st.Val, st) {
+				v := pv.V
+				if v == nil {
+					continue
+				}
+				if _, isC := v.(*ssa.Const); isC || isParam(v) || fresh(v) {
+					continue
+				}
+				if args, isApp := builtinCall(v, "append"); isApp && len(args) == 2 {
+					okEl := true
+					for _, el := range x.variadicElems(args[1]) {
+						if !isParam(el) && !fresh(el) {
+							okEl = false
+						}
+					}
+					if okEl && len(x.variadicElems(args[1])) == 1 {
+						continue
+					}
+				}
+				bad, badPos = x.Describe(v), st.Pos()
+			}
+		})
+		n++
+		c.Check(rule, fnName(f), bad == "" && stores > 0, badPos, "%s must store what it is given (its parameter itself, appended or wrapped in a node made here): it stores %s (%d store(s) into its node)", fnName(f), orStr(bad, "the parameter"), stores)
+	}
+	if n == 0 {
+		c.Lost(rule, "Accept* methods of the node types")
+	}
+}
